@@ -152,6 +152,12 @@ pub struct Monitors {
     canceled_tasks: BTreeSet<TaskId>,
     forgotten: BTreeSet<JobId>,
     pub micro: u32,
+    /// tasks that a worker started by itself from its prefilled backlog
+    prefill_started: BTreeSet<TaskId>,
+    /// workers on which such a start exceeded the server's reservation (see check_c05)
+    prefill_overcommitted: BTreeSet<WorkerId>,
+    /// the client connection that was polled in the current micro step (if any)
+    pub current_client: Option<usize>,
     maxfail_aborted: BTreeSet<TaskId>,
     last_time_check_ms: u64,
 }
@@ -421,10 +427,11 @@ impl Monitors {
                     }
                     new_ids.sort_unstable();
                     // match with the oldest outstanding submit of the same target
+                    let cc = self.current_client;
                     if let Some(s) = self
                         .submits
                         .iter_mut()
-                        .find(|s| s.seen_event.is_none() && (s.job_id == req.job_id || s.job_id.is_none() && req.job_id.is_none()))
+                        .find(|s| s.seen_event.is_none() && Some(s.client) == cc)
                     {
                         s.max_before = self
                             .prev_views
@@ -719,9 +726,8 @@ impl Monitors {
     pub fn after_step(&mut self, world: &World, obs: &mut Obs) {
         self.micro += 1;
         let step = world.step_no();
-        self.process_launch_log(world, obs);
 
-        // ---- delivered messages
+        // ---- delivered messages (a delivery precedes the executions it triggers)
         while self.tw_idx < obs.to_worker.len() {
             let m = obs.to_worker[self.tw_idx].clone();
             self.tw_idx += 1;
@@ -763,6 +769,7 @@ impl Monitors {
                 _ => {}
             }
         }
+        self.process_launch_log(world, obs);
         while self.tss_idx < obs.to_server_sent.len() {
             let m = obs.to_server_sent[self.tss_idx].clone();
             self.tss_idx += 1;
@@ -787,6 +794,13 @@ impl Monitors {
             }
         }
         while self.ts_idx < obs.to_server.len() {
+            if let FromW::Update(ups) = &obs.to_server[self.ts_idx].body {
+                for u in ups {
+                    if let Upd::RunningPrefilled(t, _) = u {
+                        self.prefill_started.insert(*t);
+                    }
+                }
+            }
             self.ts_idx += 1;
         }
 
@@ -1107,6 +1121,25 @@ impl Monitors {
                     }
                 }
             }
+            // A worker starts prefilled tasks by itself as soon as a task of the same request
+            // ends. Such a start is not a placement decision of the server; when it races with a
+            // placement that uses the same freed resources, the server-side sum is exceeded until
+            // the worker's soft reject arrives, and the saturating counters stay off afterwards.
+            // From that moment the worker is excluded from the overbooking / drift checks.
+            let has_prefill_started = snap.tasks.iter().any(|t| {
+                matches!(&t.state, TaskStateSnap::Running { worker_id, .. } if *worker_id == w.id)
+                    && self.prefill_started.contains(&t.id)
+            });
+            if has_prefill_started
+                && (0..used.len()).any(|i| used[i] + reserved[i] > total_of(i))
+            {
+                if self.prefill_overcommitted.insert(w.id) {
+                    obs.class("overcommit-by-worker-side-prefill-start");
+                }
+            }
+            if self.prefill_overcommitted.contains(&w.id) {
+                continue;
+            }
             for i in 0..used.len() {
                 if used[i] > total_of(i) {
                     obs.alarm(
@@ -1340,6 +1373,27 @@ impl Monitors {
         let aborted_now: BTreeSet<TaskId> = delta.aborted.iter().copied().collect();
         let canceled_now: BTreeSet<TaskId> = delta.canceled.iter().copied().collect();
         let mut expected_failed: BTreeSet<TaskId> = BTreeSet::new();
+        // Documented leniency: a multi-node task is in the running state on the server from the
+        // moment it is assigned; if one of its workers is lost before the start was announced the
+        // statement does not say whether that counts as "running". Both behaviours are accepted.
+        if let Some(p) = &self.prev_snap {
+            for (w, _) in &delta.lost {
+                for ts in &p.tasks {
+                    if let TaskStateSnap::RunningMultiNode(ws) = &ts.state {
+                        if ws.contains(w) {
+                            if let Some(tm) = self.tasks.get_mut(&ts.id) {
+                                if tm.running_on.is_none()
+                                    && !delta.lost_running.iter().any(|(t, _, _)| *t == ts.id)
+                                {
+                                    tm.cc_lenient = true;
+                                    obs.class("mn-lost-before-start");
+                                }
+                            }
+                        }
+                    }
+                }
+            }
+        }
         for (t, w, reason) in &delta.lost_running {
             let Some(tm) = self.tasks.get_mut(t) else {
                 continue;
@@ -1679,8 +1733,11 @@ impl Monitors {
                     }
                     let now_kind = views.get(j).and_then(|v| v.tasks.get(id)).copied();
                     if !aborted.contains(&t) || now_kind != Some(Kind::Aborted) {
-                        // canceled in the very same micro step is also final
-                        if now_kind != Some(Kind::Canceled) {
+                        // canceled in the very same micro step is also final; so is a task that
+                        // finished / failed in the same worker message before the limit was exceeded
+                        let ended_otherwise = delta.ended.contains(&t)
+                            && matches!(now_kind, Some(Kind::Finished) | Some(Kind::Failed));
+                        if now_kind != Some(Kind::Canceled) && !ended_otherwise {
                             obs.alarm(
                                 "C14",
                                 step,
@@ -1901,6 +1958,21 @@ impl Monitors {
             return;
         }
         let snap = world.snapshot();
+        if std::env::var("VERIF_DUMP_SNAPSHOT").is_ok() {
+            eprintln!("--- snapshot at rest (capable={capable}) ---");
+            for t in &snap.tasks {
+                eprintln!("  task {} {:?} rq={} prio={} deps={:?}", t.id, t.state, t.rq_id, t.priority, t.deps);
+            }
+            for w in &snap.workers {
+                eprintln!("  worker {} group={} total={:?} free={:?} assigned={:?} prefilled={:?} mn={:?} blocked={:?} remaining={:?} stopping={} reserved={}", w.id, w.group, w.total, w.free, w.assigned, w.prefilled, w.mn_task, w.blocked, w.remaining, w.stopping, w.reserved);
+            }
+            for q in &snap.queues {
+                eprintln!("  queue {} ready={:?} prefill={:?}", q.rq_id, q.ready, q.prefill);
+            }
+            for (i, r) in snap.rq_map.iter().enumerate() {
+                eprintln!("  rq {i}: {r:?}");
+            }
+        }
         // streaming clients (submit --wait): completion report must have arrived
         for (i, c) in world.clients.iter().enumerate() {
             if let Some(j) = c.streaming_job {
@@ -1971,10 +2043,24 @@ impl Monitors {
                 }
             }
             if runnable_somewhere {
+                // is it held back by a ready multi-node task of strictly higher priority?
+                let behind_mn = snap.tasks.iter().any(|m| {
+                    m.id != ts.id
+                        && m.priority > ts.priority
+                        && matches!(m.state, TaskStateSnap::Waiting { unfinished_deps: 0 })
+                        && snap
+                            .rq_map
+                            .get(m.rq_id as usize)
+                            .is_some_and(|r| r.is_multi_node())
+                });
                 obs.alarm(
                     "C02",
                     step,
-                    "task is stuck: the system is at rest, the task is unfinished and a connected worker could run it",
+                    if behind_mn {
+                        "task held back at rest behind a higher-priority multi-node task that cannot be placed"
+                    } else {
+                        "task is stuck: the system is at rest, the task is unfinished and a connected worker could run it"
+                    },
                     format!("{} in state {:?}; {}", ts.id, ts.state, why),
                 );
             } else if capable {
